@@ -47,7 +47,7 @@ ASSUMPTIONS = [
     "ValueError or MergeForbiddenError (other exception classes are reported under their own signature)",
     "part B: values are compared with ==; argument mutation is counted, not judged",
 ]
-BUDGET = {"quick": 90, "thorough": 900}
+BUDGET = {"quick": 180, "thorough": 1500}
 
 FAMS = ["ipv4_unicast", "ipv6_unicast"]
 
@@ -464,7 +464,7 @@ def judge_ref(topo, rules, dev, impl, exp):
     if _ops_multiset(impl["ops"]) != _ops_multiset(exp["ops"]):
         a, b = collections.Counter(_ops_multiset(impl["ops"])), collections.Counter(_ops_multiset(exp["ops"]))
         diff = sorted((a - b).elements()) + sorted((b - a).elements())
-        out.append(({"kind": "ref-iface-ops", "rules": kinds, "op": json.loads(diff[0])[0]},
+        out.append(({"kind": "ref-iface-ops", "rules": _kinds([r for r in rules if r["k"] != "device"]), "op": json.loads(diff[0])[0]},
                     "device %s: interface operations %r, reference %r" % (dev, impl["ops"], exp["ops"])))
     for path, value in sorted(exp["global"].items()):
         g = _get_path(impl["cfg"]["global"], path)
@@ -795,7 +795,16 @@ def _multisets(alpha, n):
     return [list(c) for c in itertools.combinations_with_replacement(alpha, n)]
 
 
+_FAMS = {}
+
+
 def families(tier):
+    if tier not in _FAMS:
+        _FAMS[tier] = _families(tier)
+    return _FAMS[tier]
+
+
+def _families(tier):
     """[(family name, topology list, registry list)] - a registry is a list of rule descriptors in the given order"""
     th = tier == "thorough"
     T = topologies(tier)
@@ -818,8 +827,10 @@ def families(tier):
     if th:
         base = [rule_direct(m, pp, sel, plan, A[a]) for m in ("D0", "D1", "D4") for pp in "us"
                 for sel in ("port", "lag", "svi", "Llag", "lagsub") for plan in (0, 1) for a in ("A0", "A1", "A2", "A3", "A4")]
-        over = [rule_direct(m, pp, sel, plan, A[a]) for m in ("D0", "D1") for pp in "us" for sel in ("port", "lag", "svi")
-                for plan in (0, 2) for a in ("A0", "A1", "A2", "A4")]
+        over = [rule_direct(m, pp, sel, 0, A[a]) for m in ("D0", "D1") for pp in "us" for sel in ("port", "lag", "svi")
+                for a in ("A0", "A1", "A2", "A4")]
+        over += [rule_direct(m, "u", sel, 2, A["A0"]) for m in ("D0", "D1") for sel in ("port", "lag", "svi")]
+        over += [rule_direct("D0", "u", "lag", 0, A["A6"]), rule_direct("D4", "u", "lag", 0, A["A5"])]
     else:
         base = [rule_direct(m, pp, sel, 0, A["A0"]) for m in ("D0", "D1", "D4") for pp in "us" for sel in ("port", "lag", "svi")]
         base += [rule_direct("D0", "u", "lag", 0, A[a]) for a in ("A1", "A2", "A3", "A4", "A5", "A7")]
@@ -885,7 +896,7 @@ def families(tier):
     g2 += [[rule_device("M3", a), rule_device("M3", b)] for a in compact for b in compact]
     if th:
         wide = [dict(zip(("as", "agg", "aggpol", "vrf", "grp"), v)) for v in
-                itertools.product(("", "c", "n"), ("", "x", "y"), ("", "P1"), ("", "a", "b", "c"), ("", "a", "b", "c"))]
+                itertools.product(("", "c", "n"), ("", "x", "y"), ("", "P1"), ("", "a", "b"), ("", "a", "c"))]
         g2 += [[rule_device("M3", a), rule_device("M0", b)] for a in wide for b in wide]
     fam.append(("device-2", T["s_single"][:1], _uniq(g2)))
     g3 = [rule_device("M3", h) for h in ({"agg": "x"}, {"agg": "y"}, {"vrf": "a"}, {"vrf": "b"}, {"vrf": "c", "grp": "a"},
@@ -939,7 +950,12 @@ def blocks(tier, seed):
         name, n = th[seed % len(th)]
         of = max(1, n // 150)
         bl.append({"part": "A", "tier": "thorough", "fam": name, "i": (seed // len(th)) % of, "of": of, "extra": 1})
-    bl += [{"part": "B", "cls": c} for c in model_class_names()] + [{"part": "B", "cls": "<mergers>"}]
+    for c in model_classes():
+        name = "%s.%s" % (c.__module__, c.__name__)
+        heavy = sum(1 for f in c._field_mergers if not isinstance(ref.expected_kind(c.__name__, f), str))
+        of = 6 if heavy > 4 else (2 if len(c._field_mergers) > 40 else 1)
+        bl += [{"part": "B", "cls": name, "j": j, "of": of} for j in range(of)]
+    bl.append({"part": "B", "cls": "<mergers>"})
     return bl
 
 
@@ -1183,7 +1199,7 @@ def check_field_triple(cls_name, fields, values):
     spec_fn = lambda n: spec(n)  # noqa: E731
     kinds = "+".join(str(_shape(sp[f])) for f in fields)
     case = {"part": "B", "cls": cls_name, "fields": list(fields), "values": values}
-    sigbase = {"class": short, "merger": kinds}
+    sigbase = {"merger": kinds}
     # pair law
     A, B = to_real(ea), to_real(eb)
     before = (plain(A), plain(B))
@@ -1191,8 +1207,8 @@ def check_field_triple(cls_name, fields, values):
     mutated = (plain(A), plain(B)) != before
     exp = _merge_ref(lambda: ref.ref_merge_model(ra, rb, spec_fn))
     if got != exp:
-        out.append((dict(sigbase, kind="merge-law", law="pair", impl=got[0], ref=exp[0]),
-                    "merge(%r, %r) = %r, reference %r" % (before[0], before[1], got, exp)))
+        out.append((dict(_blame(sigbase, sp, fields, got, exp), kind="merge-law", law="pair", impl=got[0], ref=exp[0]),
+                    "%s: merge(%r, %r) = %r, reference %r" % (short, before[0], before[1], got, exp)))
     label = "%s:%s" % (kinds, got[0])
     # associativity + variadic form
     left = _merge_real(lambda: merge(merge(to_real(ea), to_real(eb)), to_real(ec)))
@@ -1200,8 +1216,8 @@ def check_field_triple(cls_name, fields, values):
     var = _merge_real(lambda: merge(to_real(ea), to_real(eb), to_real(ec)))
     exp3 = _merge_ref(lambda: ref.ref_merge_model(ref.ref_merge_model(ra, rb, spec_fn), rc, spec_fn))
     if left != exp3:
-        out.append((dict(sigbase, kind="merge-law", law="triple", impl=left[0], ref=exp3[0]),
-                    "merge(merge(a,b),c) = %r, reference %r for a=%r b=%r c=%r" % (left, exp3, ra, rb, rc)))
+        out.append((dict(_blame(sigbase, sp, fields, left, exp3), kind="merge-law", law="triple", impl=left[0], ref=exp3[0]),
+                    "%s: merge(merge(a,b),c) = %r, reference %r for a=%r b=%r c=%r" % (short, left, exp3, ra, rb, rc)))
     if var != left:
         out.append((dict(sigbase, kind="merge-law", law="variadic"), "merge(a,b,c) = %r but merge(merge(a,b),c) = %r" % (var, left)))
     if left[0] == "ok" and right[0] == "ok":
@@ -1212,6 +1228,16 @@ def check_field_triple(cls_name, fields, values):
     elif left[0] != right[0]:
         label += " assoc:one-side-refused"
     return out, label, mutated, case
+
+
+def _blame(sigbase, sp, fields, got, exp):
+    """signature names the merger of the field that came out wrong (when both sides produced a model)"""
+    if got[0] == "ok" and exp[0] == "ok" and isinstance(got[1], dict) and isinstance(exp[1], dict):
+        bad = [f for f in fields if got[1].get(f, NS) != exp[1].get(f, NS)]
+        if bad:
+            return {"merger": str(_shape(sp[bad[0]]))}
+        return {"merger": "<field nobody assigned>"}
+    return dict(sigbase)
 
 
 def check_merger_triple(kind, values):
@@ -1320,7 +1346,8 @@ def run_b(block, ctx):
     short = c.__name__
     sp = spec(block["cls"])
     names = list(c._field_mergers)
-    for f in names:
+    j, of = block.get("j", 0), block.get("of", 1)
+    for f in names[j::of]:
         declared = describe_merger(c._field_mergers[f])
         if _shape(declared) != _shape(sp[f]):
             ctx.violation({"kind": "declared-merger", "class": short, "field": f, "declared": str(_shape(declared)),
@@ -1333,7 +1360,7 @@ def run_b(block, ctx):
                 return
             _account(ctx, *check_field_triple(block["cls"], [f], [[v] for v in vals]), vals=vals)
     # two fields at once (neighbours in declaration order): fields do not influence each other
-    for f, g in zip(names, names[1:] + names[:1]):
+    for f, g in list(zip(names, names[1:] + names[:1]))[j::of]:
         if f == g:
             continue
         df, dg = domain(sp[f])[:1] + domain(sp[f])[-2:], domain(sp[g])[:1] + domain(sp[g])[-2:]
